@@ -271,9 +271,14 @@ func c15reads(env *core.Env) {
 		at := c.Range("fault.after", 0, 3)
 		what := []reg.Kind{reg.Repositories, reg.Tags, reg.Referrers}[c.Int("fault.listing", 3)]
 		fired := false
+		vanish := c.Bool("fault.name-unknown", 1, 3)
 		plan := &reg.FaultPlan{IterFailAfter: func(call *reg.Call) (int, error) {
 			if call.Method != what.String() {
 				return -1, nil
+			}
+			if vanish {
+				// (the repository went away upstream between two of the member's pages)
+				return at, fmt.Errorf("page %d: %w", at, ociregistry.ErrNameUnknown)
 			}
 			return at, ociregistry.NewError("injected listing failure", "VERIF_INJECTED", nil)
 		}}
@@ -291,7 +296,7 @@ func c15reads(env *core.Env) {
 			plan.IterFaultsDelivered = 0
 			u := ociunify.New(ms[0], ms[1], &ociunify.Options{ReadPolicy: pol})
 			res := reg.Exec(ctx, u, op, nil)
-			fired = plan.IterFaultsDelivered > 0
+			fired = plan.IterFaultsDelivered > 0 && !(vanish && plan.IterItemsBeforeFault == 0) // (name-unknown before anything was delivered: "not here", rightly forgiven)
 			if fired {
 				env.Fault("member-listing-fails")
 			}
